@@ -317,7 +317,7 @@ def run(ctx):
                        "commit, after deletes and after a merge; distinct = distinct case; non-trivial = at least two documents or a merge")
     ctx.assumptions += ["TLC and the Json community module are trusted",
                         "values are compared in the harness's canonical rendering (type tag + decimal / hex text), which is injective on OwnedValue; "
-                        "JSON object key order is not compared; a pre-tokenized text is stored as its text",
+                        "a JSON object is compared as the sequence of its (key, value) entries; a pre-tokenized text is stored as its text",
                         "which document sits at an address is taken from the `id` fast field (independent of the store)",
                         "zstd is not built into the harness (feature off): compressors none and lz4 only",
                         "values of 4096 bytes or more are compared by length, 64-bit FNV-1a hash, first and last 16 bytes (the harness hashes what it wrote "
